@@ -296,19 +296,6 @@ End AuxComplete.
 (* ================================================================== *)
 (** * Main statements: soundness and completeness *)
 
-Lemma some_inj A (x y : A) : Some x = Some y -> x = y.
-Proof. intros H. now injection H. Qed.
-
-Lemma vmodels_args_app n m (f g : nat -> cnf) :
-  (forall a, a < n -> vmodels m (f a ++ g a) = true) <->
-  (forall a, a < n -> vmodels m (f a) = true) /\
-  (forall a, a < n -> vmodels m (g a) = true).
-Proof.
-  split.
-  - intros H. split; intros a Ha; specialize (H a Ha); apply vmodels_app_iff in H; tauto.
-  - intros [H1 H2] a Ha. apply vmodels_app_iff. split; [now apply H1|now apply H2].
-Qed.
-
 Lemma aux_sound : forall e thr F n,
   is_aux_family e -> compact_af F n -> enc_sound e thr F n.
 Proof.
@@ -382,3 +369,215 @@ Proof.
   - pose proof HS as [(_ & Hcf & _) _].
     split; [now apply model_co|]. split; [now apply model_disj|now apply model_range].
 Qed.
+
+(* ================================================================== *)
+(** * Variable layout *)
+
+Definition aux3 (e : enc) : Prop := e = AuxCf \/ e = AuxAdm \/ e = AuxCo.
+
+Lemma var_class_aux3 e n r v :
+  aux3 e ->
+  (var_class e n r v <->
+   (exists a, a < n /\ v = aux_var a) \/
+   (r = true /\ exists a, a < n /\ v = aux_range n a) \/
+   (exists a, a < n /\ v = aux_disj a)).
+Proof. intros [-> | [-> | ->]]; apply iff_refl. Qed.
+
+Ltac split_forall := repeat (first [apply Forall_nil | apply Forall_cons]).
+
+Section AuxGood.
+Variables (e : enc) (n : nat) (r : bool).
+Hypothesis He : aux3 e.
+
+Lemma good_av a : a < n -> good_lit e n r (zlit (aux_var a)).
+Proof.
+  intros Ha. apply good_zlit; [apply aux_var_pos|]. apply (var_class_aux3 e n r _ He).
+  left. exists a. now split.
+Qed.
+Lemma good_nav a : a < n -> good_lit e n r (znlit (aux_var a)).
+Proof.
+  intros Ha. apply good_znlit; [apply aux_var_pos|]. apply (var_class_aux3 e n r _ He).
+  left. exists a. now split.
+Qed.
+Lemma good_dv a : a < n -> good_lit e n r (zlit (aux_disj a)).
+Proof.
+  intros Ha. apply good_zlit; [apply aux_disj_pos|]. apply (var_class_aux3 e n r _ He).
+  right. right. exists a. now split.
+Qed.
+Lemma good_ndv a : a < n -> good_lit e n r (znlit (aux_disj a)).
+Proof.
+  intros Ha. apply good_znlit; [apply aux_disj_pos|]. apply (var_class_aux3 e n r _ He).
+  right. right. exists a. now split.
+Qed.
+Lemma good_rv a : r = true -> a < n -> good_lit e n r (zlit (aux_range n a)).
+Proof.
+  intros Hr Ha. apply good_zlit; [apply aux_range_pos|]. apply (var_class_aux3 e n r _ He).
+  right. left. split; [exact Hr|]. exists a. now split.
+Qed.
+Lemma good_nrv a : r = true -> a < n -> good_lit e n r (znlit (aux_range n a)).
+Proof.
+  intros Hr Ha. apply good_znlit; [apply aux_range_pos|]. apply (var_class_aux3 e n r _ He).
+  right. left. split; [exact Hr|]. exists a. now split.
+Qed.
+
+Variable atk : nat -> list nat.
+Hypothesis Hatk : forall a b, In b (atk a) -> b < n.
+
+Lemma good_cf_arg a : a < n -> all_good e n r (aux_cf_arg atk a).
+Proof.
+  intros Ha. unfold aux_cf_arg. apply all_good_map. intros b Hb.
+  pose proof (Hatk a b Hb) as Hbn.
+  split_forall; auto using good_nav.
+Qed.
+
+Lemma good_impl_arg a :
+  a < n -> all_good e n r (map (fun b => [znlit (aux_var a); zlit (aux_disj b)]) (atk a)).
+Proof.
+  intros Ha. apply all_good_map. intros b Hb. pose proof (Hatk a b Hb) as Hbn.
+  split_forall; auto using good_nav, good_dv.
+Qed.
+
+Lemma good_adm_arg a : a < n -> all_good e n r (aux_adm_arg atk a).
+Proof. exact (good_impl_arg a). Qed.
+
+Lemma good_co_arg a : a < n -> all_good e n r (aux_co_arg_with atk aux_var aux_disj a).
+Proof.
+  intros Ha. unfold aux_co_arg_with. apply all_good_app; [now apply good_impl_arg|].
+  split_forall; [now apply good_av|].
+  apply good_clause_map. intros b Hb. apply good_ndv. exact (Hatk a b Hb).
+Qed.
+
+Lemma good_disj_arg a : a < n -> all_good e n r (aux_disj_arg atk a).
+Proof.
+  intros Ha. unfold aux_disj_arg, disj_var_with.
+  repeat match goal with |- all_good _ _ _ (_ ++ _) => apply all_good_app end.
+  - split_forall; auto using good_nav, good_ndv.
+  - apply all_good_map. intros b Hb. pose proof (Hatk a b Hb) as Hbn.
+    split_forall; auto using good_nav, good_dv.
+  - split_forall; [now apply good_ndv|].
+    apply good_clause_map. intros b Hb. apply good_av. exact (Hatk a b Hb).
+Qed.
+
+Lemma good_range_arg a : r = true -> a < n -> all_good e n r (aux_range_arg n a).
+Proof.
+  intros Hr Ha. unfold aux_range_arg.
+  split_forall; auto using good_av, good_nav, good_dv, good_ndv, good_rv, good_nrv.
+Qed.
+
+End AuxGood.
+
+Section StGood.
+Variables (n : nat) (r : bool).
+
+Lemma good_sv a : a < n -> good_lit StDefault n r (zlit (exp_var a)).
+Proof.
+  intros Ha. apply good_zlit; [apply exp_var_pos|]. left. exists a. now split.
+Qed.
+Lemma good_nsv a : a < n -> good_lit StDefault n r (znlit (exp_var a)).
+Proof.
+  intros Ha. apply good_znlit; [apply exp_var_pos|]. left. exists a. now split.
+Qed.
+
+Variable atk : nat -> list nat.
+Hypothesis Hatk : forall a b, In b (atk a) -> b < n.
+
+Lemma good_st_arg a : a < n -> all_good StDefault n r (st_arg atk a).
+Proof.
+  intros Ha. unfold st_arg. apply all_good_app.
+  - apply all_good_map. intros b Hb. pose proof (Hatk a b Hb) as Hbn.
+    destruct (a =? b); split_forall; auto using good_nsv.
+  - split_forall; [now apply good_sv|].
+    apply good_clause_map. intros b Hb. apply filter_In in Hb. destruct Hb as [Hb _].
+    apply good_sv. exact (Hatk a b Hb).
+Qed.
+
+End StGood.
+
+Lemma aux_layout_arith e n range :
+  is_aux_family e ->
+  (forall a b, arg_var e a = arg_var e b -> a = b) /\
+  (forall a b, range_var e n a = range_var e n b -> a = b) /\
+  (forall a, 0 < arg_var e a) /\
+  (forall a b, a < n -> b < n -> arg_var e a <> range_var e n b) /\
+  (forall a, a < n -> ~ aux_zone e n range (arg_var e a)) /\
+  (forall a, a < n -> range = true -> ~ aux_zone e n range (range_var e n a)).
+Proof.
+  intros [-> | [-> | [-> | ->]]]; cbn [arg_var range_var aux_zone];
+    unfold exp_var, exp_range, aux_var, aux_range, aux_disj;
+    (split; [intros a b; lia|]); (split; [intros a b; lia|]); (split; [intros a; lia|]);
+    (split; [intros a b Ha Hb; lia|]); split.
+  all: unfold not; intros;
+    repeat match goal with H : exists _, _ |- _ => destruct H as [? [? ?]] end;
+    try contradiction; lia.
+Qed.
+
+Lemma aux_layout : forall e thr range F n,
+  is_aux_family e -> compact_af F n -> enc_layout e thr range F n.
+Proof.
+  intros e thr range F n He HF. split; [|now apply aux_layout_arith].
+  intros C HC. apply all_good_elim.
+  rewrite (enc_clauses_compact e thr range F n HF) in HC.
+  assert (Hatk : forall a b, In b (attackers F a) -> b < n).
+  { intros a b Hb. destruct (compact_attackers_lt F n a b HF Hb) as [H _]. exact H. }
+  destruct He as [-> | [-> | [-> | ->]]]; destruct range; cbv [encode option_map snd] in HC;
+    try discriminate; apply some_inj in HC; subst C;
+    apply all_good_over_args; intros a Ha;
+    repeat match goal with |- all_good _ _ _ (_ ++ _) => apply all_good_app end.
+  all: try (apply good_st_arg; assumption).
+  all: try (apply good_cf_arg; unfold aux3; auto).
+  all: try (apply good_adm_arg; unfold aux3; auto).
+  all: try (apply good_co_arg; unfold aux3; auto).
+  all: try (apply good_disj_arg; unfold aux3; auto).
+  all: try (apply good_range_arg; unfold aux3; auto).
+Qed.
+
+(* ================================================================== *)
+(** * assignment_to_extension *)
+
+Lemma aux_arg_of_var_spec n v a :
+  0 < v ->
+  ((if Nat.odd v then None
+    else let id := Nat.div2 v - 1 in if id <? n then Some id else None) = Some a <->
+   a < n /\ v = aux_var a).
+Proof.
+  intros Hv. pose proof (Nat.div2_odd v) as Hd. unfold aux_var.
+  destruct (Nat.odd v) eqn:Eo; cbn [Nat.b2n] in Hd.
+  - split; [discriminate|]. intros [_ Heq]. lia.
+  - cbv zeta. destruct (Nat.div2 v - 1 <? n) eqn:El;
+      [apply Nat.ltb_lt in El|apply Nat.ltb_ge in El]; split.
+    + intros [= <-]. lia.
+    + intros [Ha Heq]. f_equal. lia.
+    + discriminate.
+    + intros [Ha Heq]. lia.
+Qed.
+
+Lemma st_arg_of_var_spec n v a :
+  0 < v ->
+  ((if v <=? n then Some (v - 1) else None) = Some a <-> a < n /\ v = exp_var a).
+Proof.
+  intros Hv. unfold exp_var.
+  destruct (v <=? n) eqn:El; [apply Nat.leb_le in El|apply Nat.leb_gt in El]; split.
+  - intros [= <-]. lia.
+  - intros [Ha Heq]. f_equal. lia.
+  - discriminate.
+  - intros [Ha Heq]. lia.
+Qed.
+
+Lemma aux_a2e : forall e n, is_aux_family e -> a2e_ok e n.
+Proof.
+  intros e n He. apply a2e_generic.
+  - intros v a Hv. destruct He as [-> | [-> | [-> | ->]]].
+    + exact (st_arg_of_var_spec n v a Hv).
+    + exact (aux_arg_of_var_spec n v a Hv).
+    + exact (aux_arg_of_var_spec n v a Hv).
+    + exact (aux_arg_of_var_spec n v a Hv).
+  - intros a b Hab. destruct He as [-> | [-> | [-> | ->]]]; cbn [arg_var];
+      unfold exp_var, aux_var; lia.
+Qed.
+
+Print Assumptions aux_sound.
+Print Assumptions aux_complete.
+Print Assumptions aux_range_sound.
+Print Assumptions aux_range_complete.
+Print Assumptions aux_layout.
+Print Assumptions aux_a2e.
